@@ -13,6 +13,7 @@ pub(crate) fn parse_svg_text_element<'input>(
     parent: roxmltree::Node<'_, 'input>,
     parent_id: NodeId,
     style_sheet: &simplecss::StyleSheet,
+    depth: u32,
     doc: &mut Document<'input>,
 ) -> Result<(), Error> {
     debug_assert_eq!(parent.tag_name().name(), "text");
@@ -31,7 +32,7 @@ pub(crate) fn parse_svg_text_element<'input>(
         }
     };
 
-    parse_svg_text_element_impl(parent, parent_id, style_sheet, space, doc)?;
+    parse_svg_text_element_impl(parent, parent_id, style_sheet, space, depth + 1, doc)?;
 
     trim_text_nodes(parent_id, space, doc);
     Ok(())
@@ -42,8 +43,14 @@ fn parse_svg_text_element_impl<'input>(
     parent_id: NodeId,
     style_sheet: &simplecss::StyleSheet,
     space: XmlSpace,
+    depth: u32,
     doc: &mut Document<'input>,
 ) -> Result<(), Error> {
+    // The same limit as in `parse_xml_node`.
+    if depth > 1024 {
+        return Err(Error::NodesLimitReached);
+    }
+
     for node in parent.children() {
         if node.is_text() {
             let text = trim_text(node.text().unwrap(), space);
@@ -93,7 +100,7 @@ fn parse_svg_text_element_impl<'input>(
                 }
             }
         } else {
-            parse_svg_text_element_impl(node, node_id, style_sheet, space, doc)?;
+            parse_svg_text_element_impl(node, node_id, style_sheet, space, depth + 1, doc)?;
         }
     }
 
